@@ -149,6 +149,20 @@ pub fn check_remesh(pre: &State, post: &State, op: &Op, res: &Result<Res, String
     let r = pre.b(2, l);
     let (a, b, c) = (o(l), o(pre.b(1, l)), o(pre.b(0, l)));
     let d = if r != 0 { Some(o(pre.b(0, r))) } else { None };
+    // the cuts take "free darts used to create the new edges": the statement makes no claim for
+    // null, removed, linked or repeated spares (unlike C14's for the insertion kernels)
+    let spares: &[u32] = match op {
+        Op::CutInner { nd, .. } => nd,
+        Op::CutOuter { nd, .. } => nd,
+        _ => &[],
+    };
+    let spares_ok = spares.iter().enumerate().all(|(i, &x)| {
+        x != 0 && (x as usize) < pre.n() && !pre.unused[x as usize] && pre.is_free(x) && !spares[..i].contains(&x)
+    });
+    if !spares_ok {
+        probe.premise_failed += 1;
+        return out;
+    }
     if kind == 2 && r != 0 {
         // cut_outer_edge on an interior edge: outside the statement
         probe.premise_failed += 1;
